@@ -1096,8 +1096,12 @@ impl<'a> Validator<'a> {
         // `expect_item` is true right after the open bracket or a comma: a comma
         // in that state is a leading/doubled comma (9MAG, CTN5).
         let mut expect_item = true;
+        // True right after a quoted scalar or a nested collection: only there may a
+        // `:` value indicator be glued to what follows (`{"a":b}`).
+        let mut after_json_like = false;
         loop {
             self.skip_flow_ws()?;
+            let json_like_before = core::mem::replace(&mut after_json_like, false);
             match self.peek() {
                 None => {
                     return Err(self.error(YamlValidationErrorKind::UnclosedFlow {
@@ -1121,14 +1125,22 @@ impl<'a> Validator<'a> {
                     self.advance();
                     expect_item = true;
                 }
-                Some(b':') => {
-                    // Mapping value indicator; the value follows.
+                // Mapping value indicator; the value follows. Elsewhere a `:` glued
+                // to a non-separator starts a plain scalar (`[:a]`, `{k: :#b}`).
+                Some(b':')
+                    if json_like_before
+                        || matches!(
+                            self.peek_at(1),
+                            None | Some(b' ' | b'\t' | b'\n' | b'\r' | b',' | b'[' | b']' | b'{' | b'}')
+                        ) =>
+                {
                     self.advance();
                     expect_item = false;
                 }
                 Some(b'[' | b'{') => {
                     self.scan_flow()?;
                     expect_item = false;
+                    after_json_like = true;
                 }
                 // Every arm here is reached at a node start — after `[`, `{`,
                 // `,` or `:` — so a `*` is an alias, not scalar content (#404).
@@ -1151,10 +1163,12 @@ impl<'a> Validator<'a> {
                 Some(b'"') => {
                     self.scan_double_quoted(0)?;
                     expect_item = false;
+                    after_json_like = true;
                 }
                 Some(b'\'') => {
                     self.scan_single_quoted(0)?;
                     expect_item = false;
+                    after_json_like = true;
                 }
                 // A bare `-` (block sequence indicator) is not a valid flow node
                 // (YJV2 `[-]`, G5U8 `[-, -]`). A `-` starting a scalar like `-1`
